@@ -27,6 +27,7 @@ DOC = {
         "independently written references; exhaustiveness of the artifact orders."
     ),
     "rules": {
+        "C07-R6": "damped oscillation and PFID: the label list, the kernel without IRF, the kernel with IRF and the complex split all use one column layout (cos/real 0..n-1, sin/imag n..2n-1), so the formula checked per kernel is the formula of the column the label names (shared with C06-R2)",
         "C07-R1": "every array that reaches a += accumulation (also through a kernel's out-parameter) is allocated with np.zeros",
         "C07-R2": "the time origin of decay, coherent artifact, damped oscillation and PFID is affine in (centre, shift) with the same coefficient of shift (centre - shift)",
         "C07-R3": "no-IRF oscillation exp(-rate t - i f t); IRF form exp((-t + dk/2) k) (1 + erf((t - dk)/(sqrt2 w))) with dk = k w^2, k = rate + i f, summed over Gaussians and divided by sum(scales); artifact g, g (c-t)/w^2, g ((t-c)^2 - w^2)/w^4 with g = exp(-(t-c)^2/(2 w^2)); Gaussian shape exp(-ln2 (2(x-x0)/D)^2), skewed variant exp(-ln2 (ln(1 + 2b(x-x0)/D)/b)^2) where the log argument is positive, 0 elsewhere; amplitude applied when given",
@@ -437,9 +438,16 @@ def r5(ctx) -> None:
     ownership(ctx, rule="C07-R5", scope=("glotaran/builtin/megacomplexes/",), floors=False)
 
 
+def r6(ctx) -> None:
+    """Which column carries which quadrature: label constructor, every kernel and the readers agree (shared with C06-R2)."""
+    from glint.rules import c06
+
+    c06.r2(ctx, rule="C07-R6")
+
+
 def check(ctx) -> None:
     for g in check.groups:
         g(ctx)
 
 
-check.groups = [r1, r2, r3, r3_frequencies, r4, r5]
+check.groups = [r1, r2, r3, r3_frequencies, r4, r5, r6]
